@@ -1,6 +1,7 @@
 """Run contracts: symbolic execution + solving, one process per contract."""
 import glob
 import importlib
+import importlib.util
 import json
 import os
 import sys
@@ -21,7 +22,6 @@ def load_all():
     # contract files under development outside /verif/contracts (PYVC_EXTRA=<file>[:<file>...]) - so that an unfinished file never breaks
     # the loading of the registered ones; registered contracts are only those in /verif/contracts
     for path in filter(None, os.environ.get("PYVC_EXTRA", "").split(os.pathsep)):
-        import importlib.util
         name = "contracts." + os.path.basename(path)[:-3]
         if name not in sys.modules:
             spec = importlib.util.spec_from_file_location(name, path)
